@@ -6,6 +6,8 @@ import Mathlib.Tactic.FieldSimp
 import Mathlib.Algebra.Order.Field.Basic
 import Mathlib.Algebra.Order.Ring.Cast
 import Mathlib.Algebra.Order.Ring.Abs
+import Mathlib.Algebra.Order.Floor.Ring
+import Mathlib.Data.Rat.Floor
 import M3d.Model.Numeric
 /-!
 Helper lemmas for C17: list polynomials (`numerical/polynomial.go`) over a field.
